@@ -682,7 +682,10 @@ class EscapeAnalysis:
                 classes = ()
                 if kind == "ext":
                     classes = raiser_table.lookup_external(name, call)
-                    if name not in raiser_table.EXTERNAL and name not in raiser_table.NO_RAISE and func.module.name != "cutplace.gui":
+                    is_exception_class = name.startswith("builtins.") and isinstance(getattr(__import__("builtins"), name[9:], None), type) \
+                        and issubclass(getattr(__import__("builtins"), name[9:]), BaseException)
+                    if name not in raiser_table.EXTERNAL and name not in raiser_table.NO_RAISE and func.module.name != "cutplace.gui" \
+                            and not is_exception_class:
                         self.untabled_externals.setdefault(name, "%s:%d" % (func.module.relpath, call.lineno))
                 elif kind == "method":
                     classes = raiser_table.lookup_method(name, call, func)
